@@ -574,6 +574,7 @@ package mqtt
 //@ requires c.atLeastOnce.seqSem != nil && cap(c.atLeastOnce.seqSem) == 1 && c.exactlyOnce.seqSem != nil && cap(c.exactlyOnce.seqSem) == 1 && c.atLeastOnce.seqSem != c.exactlyOnce.seqSem
 //@ requires sigfull(c)
 //@ requires forall(k, k >= 32768 && k < 65536 && st_has(c.persistence, k) ==> st_len(c.persistence, k) >= 2)
+//@ requires cfglens(c) && (st_has(c.persistence, 0) ==> st_len(c.persistence, 0) <= 65535)
 //@ at[C18] call dialAndConnect#1: assert config.CleanSession == (c.CleanSession && previousConn == nil) && config.Will.Topic == c.Will.Topic && config.KeepAlive == c.KeepAlive && config.UserName == c.UserName
 //@ at[C18] send connSem#1: assert v == previousConn
 //@ at[C18] send connSem#2: assert v == previousConn
@@ -658,8 +659,10 @@ package mqtt
 //@ global readBufSize >= 16
 
 // The read routine. rdinv: the part of the client invariant the read routine relies on and restores.
-//@ pred rdinv(c): writable(c) && sigfull(c) && c.connSem != nil && cap(c.connSem) == 1 && c.connSem != c.writeSem && (closed(c.connSem) ==> len(c.connSem) == 0) && c.persistence != nil && c.perPacketID != nil && c.pingAck != nil && !closed(c.pingAck) && cap(c.pingAck) == 1 && c.atLeastOnce.queue != nil && c.exactlyOnce.queue != nil && c.atLeastOnce.queue != c.exactlyOnce.queue && c.pingAck != c.atLeastOnce.queue && c.pingAck != c.exactlyOnce.queue && c.atLeastOnce.seqSem != nil && cap(c.atLeastOnce.seqSem) == 1 && c.exactlyOnce.seqSem != nil && cap(c.exactlyOnce.seqSem) == 1 && c.atLeastOnce.seqSem != c.exactlyOnce.seqSem && !closed(c.atLeastOnce.seqSem) && !closed(c.exactlyOnce.seqSem) && wrap64(c.Received - c.Completed) <= len(c.exactlyOnce.queue) && cap(c.exactlyOnce.queue) <= 16384 && (len(c.pendingAck) == 0 || len(c.pendingAck) == 4) && (c.bufr != nil ==> rx_bufref(c.bufr) > 0 && allocated(rx_bufref(c.bufr)) && rx_bufref(c.bufr) != ref(c.pendingAck) && rx_size(c.bufr) == readBufSize) && (ref(c.peek) == 0 || (c.bufr != nil && ref(c.peek) == rx_bufref(c.bufr))) && (c.bigMessage != nil ==> c.bigMessage.Size >= 0) && (c.bufr == nil ==> c.bigMessage == nil && c.peek == nil) && (c.bufr != nil ==> len(c.peek) <= rx_size(c.bufr))
-//@ pred rdmaps(c): forall(k, k >= 32768 && k < 65536 && st_has(c.persistence, k) ==> st_len(c.persistence, k) >= 2)
+// the options fit a CONNECT packet (what Config.valid established when the session was made)
+//@ pred cfglens(c): c.Dialer != nil && len(c.UserName) <= 65535 && len(c.Password) <= 65535 && len(c.Will.Topic) <= 65535 && len(c.Will.Message) <= 65535
+//@ pred rdinv(c): cfglens(c) && writable(c) && sigfull(c) && c.connSem != nil && cap(c.connSem) == 1 && c.connSem != c.writeSem && (closed(c.connSem) ==> len(c.connSem) == 0) && c.persistence != nil && c.perPacketID != nil && c.pingAck != nil && !closed(c.pingAck) && cap(c.pingAck) == 1 && c.atLeastOnce.queue != nil && c.exactlyOnce.queue != nil && c.atLeastOnce.queue != c.exactlyOnce.queue && c.pingAck != c.atLeastOnce.queue && c.pingAck != c.exactlyOnce.queue && c.atLeastOnce.seqSem != nil && cap(c.atLeastOnce.seqSem) == 1 && c.exactlyOnce.seqSem != nil && cap(c.exactlyOnce.seqSem) == 1 && c.atLeastOnce.seqSem != c.exactlyOnce.seqSem && !closed(c.atLeastOnce.seqSem) && !closed(c.exactlyOnce.seqSem) && wrap64(c.Received - c.Completed) <= len(c.exactlyOnce.queue) && cap(c.exactlyOnce.queue) <= 16384 && (len(c.pendingAck) == 0 || len(c.pendingAck) == 4) && (c.bufr != nil ==> rx_bufref(c.bufr) > 0 && allocated(rx_bufref(c.bufr)) && rx_bufref(c.bufr) != ref(c.pendingAck) && rx_size(c.bufr) == readBufSize) && (ref(c.peek) == 0 || (c.bufr != nil && ref(c.peek) == rx_bufref(c.bufr))) && (c.bigMessage != nil ==> c.bigMessage.Size >= 0) && (c.bufr == nil ==> c.bigMessage == nil && c.peek == nil) && (c.bufr != nil ==> len(c.peek) <= rx_size(c.bufr))
+//@ pred rdmaps(c): forall(k, k >= 32768 && k < 65536 && st_has(c.persistence, k) ==> st_len(c.persistence, k) >= 2) && (st_has(c.persistence, 0) ==> st_len(c.persistence, 0) <= 65535)
 //@ func mqtt.(*Client).readSlices -> message, topic, err
 //@ stable writeSem, seqSem
 //@ requires rdinv(c) && rdmaps(c) && (c.readConn == nil) == (c.bufr == nil)
@@ -713,7 +716,7 @@ package mqtt
 
 // newClient: limits normalised into 0..16384, queue capacity = limit, offline start state.
 //@ func mqtt.newClient -> r
-//@ requires config != nil
+//@ requires config != nil && cfglens(config)
 //@ modifies config.ReconnectWaitMin, config.ReconnectWaitMax, config.AtLeastOnceMax, config.ExactlyOnceMax
 //@ ensures[C17] config.AtLeastOnceMax == r.AtLeastOnceMax && config.ExactlyOnceMax == r.ExactlyOnceMax
 //@ ensures[C17] !closed(r.atLeastOnce.queue) && !closed(r.exactlyOnce.queue)
